@@ -144,6 +144,17 @@ def attr_uses(P, attr):
                                 nodes.append(u)
             elif isinstance(p, ast.AugAssign) and p.value is n:
                 role = ('binop', type(p.op).__name__)
+            elif isinstance(p, (ast.Tuple, ast.List)) and isinstance(par.get(p), ast.Assign) and par.get(p).value is p and func is not None \
+                    and len(par.get(p).targets) == 1 and isinstance(par.get(p).targets[0], (ast.Tuple, ast.List)) and len(par.get(p).targets[0].elts) == len(p.elts):
+                # `events, paused = self._events, self._paused_events`: the element-wise form of an alias assignment
+                t = par.get(p).targets[0].elts[p.elts.index(n)]
+                role = ('assign-alias', ast.unparse(t))
+                from .cfg import tame_aliases
+                if isinstance(t, ast.Name) and t.id in tame_aliases(func):
+                    role = ('alias', t.id)
+                    for u in ast.walk(func):
+                        if isinstance(u, ast.Name) and u.id == t.id and isinstance(u.ctx, ast.Load):
+                            nodes.append(u)
             else:
                 role = ('other', type(p).__name__)
             out.append(Site(m, cls, func, n, _enclosing_stmt(m, n), {'role': role}))
